@@ -73,14 +73,22 @@ class AbstractF:
         return ~self.flag_lo
 
 
-def run_fit(ctx, data, tag):
+def run_fit(ctx, data, tag, max_iter=1, nu_script=None):
     """real fit_mvstud(max_iter=1) on a symbolic (n, d) data array.  The nu update is a nondeterministic function of the
     Mahalanobis distances: a run whose distances are *proved* equal to those of an earlier run gets the same nu / inf flag."""
     n, d = len(data), len(data[0])
     info = {}
     runs = ctx.notes.setdefault("_c19_runs", [])
 
+    script_pos = {"k": 0}
+
     def nu_for(delta):
+        if nu_script is not None:
+            # scripted dof updates (finite, inside the bracket): the arithmetic of the run then depends on the data only
+            from vf.engine.core import SymBool
+            k = min(script_pos["k"], len(nu_script) - 1)
+            script_pos["k"] += 1
+            return float(nu_script[k]), SymBool(z3.BoolVal(False)), SymBool(z3.BoolVal(True))
         for (dl, nu_v, flag, flag_lo) in runs:
             same = z3.And(*[eq(p, q) for p, q in zip(dl, delta)])
             if ctx._query(z3.Not(same), timeout_ms=3000)[0] == "unsat":
@@ -128,7 +136,10 @@ def run_fit(ctx, data, tag):
     from vf.engine.core import DomainError
     try:
         with patched(student_mod, np=proxy, optimize=opt, special=spec):
-            mu, Sigma, nu = fit_mvstud(sarr(data), tolerance=1e-6, max_iter=1)
+            import io, contextlib
+            with contextlib.redirect_stdout(io.StringIO()):
+                mu, Sigma, nu = fit_mvstud(sarr(data), tolerance=1e-6, max_iter=max_iter)
+        info["n_dof_updates"] = script_pos["k"]
     except np.linalg.LinAlgError:
         raise DomainError("degenerate data: singular initial scale matrix (outside the claim)")
     return mu, Sigma, nu, info
@@ -148,9 +159,19 @@ def make_equivariance(n, d, kind):
             b = [SymReal.const(0)] * d
             y = [[a[j] * x[i][j] for j in range(d)] for i in range(n)]
             perm = list(range(d))
+        elif kind == "scale-common":
+            # every coordinate scaled by the same factor, two ECME iterations with scripted dof updates: anything the loop compares
+            # with an absolute constant (a stopping test, a floor) shows as a different number of iterations or a different result
+            pts = [(0, 0), (1, 0), (0, 1), (3, 2), (1, 4), (2, 2)][:n]
+            x = [[SymReal.const(Fraction(c)) for c in p_[:d]] for p_ in pts]
+            sc = real(ctx, "s", lo=Fraction(1, 10 ** 6), hi=10 ** 6)
+            a = [sc] * d
+            b = [SymReal.const(0)] * d
+            y = [[a[j] * x[i][j] for j in range(d)] for i in range(n)]
+            perm = list(range(d))
         else:
             x = [[real(ctx, f"x{i}_{j}") for j in range(d)] for i in range(n)]
-        if kind == "scale-concrete":
+        if kind in ("scale-concrete", "scale-common"):
             pass
         elif kind == "affine":
             a = [real(ctx, f"a{j}") for j in range(d)]
@@ -164,8 +185,12 @@ def make_equivariance(n, d, kind):
             b = [SymReal.const(0)] * d
             perm = [1, 0]
             y = [[x[i][perm[j]] for j in range(d)] for i in range(n)]
-        mu1, S1, nu1, i1 = run_fit(ctx, x, "x")
-        mu2, S2, nu2, i2 = run_fit(ctx, y, "y")
+        kw = dict(max_iter=2, nu_script=(3.0, 2.5, 2.25)) if kind == "scale-common" else {}
+        mu1, S1, nu1, i1 = run_fit(ctx, x, "x", **kw)
+        mu2, S2, nu2, i2 = run_fit(ctx, y, "y", **kw)
+        if kind == "scale-common":
+            ctx.check("same-number-of-iterations", z3.BoolVal(i1["n_dof_updates"] == i2["n_dof_updates"]),
+                      detail={"unscaled": i1["n_dof_updates"], "scaled": i2["n_dof_updates"]})
         inf1 = isinstance(nu1, float) and math.isinf(nu1)
         inf2 = isinstance(nu2, float) and math.isinf(nu2)
         ctx.check("same-branch(nu-finite-or-inf)", z3.BoolVal(inf1 == inf2))
@@ -184,7 +209,11 @@ def make_equivariance(n, d, kind):
     def replay(m, label, v):
         rng = np.random.RandomState(0)
         x = rng.standard_t(2, size=(200, d)) * 0.1 + 0.5  # heavy tails: the nu update stays finite
-        if kind in ("affine", "scale-concrete"):
+        if kind in ("affine", "scale-concrete", "scale-common"):
+            if kind == "scale-common":
+                m = dict(m)
+                m.update({f"a{j}": float(m.get("s", 2.0)) for j in range(d)})
+                m.update({f"b{j}": 0.0 for j in range(d)})
             if kind == "scale-concrete":
                 m = dict(m)
                 m.update({f"a{j}": 1.0 / float(m.get("s", 2.0)) for j in range(d - 1)})
@@ -252,6 +281,7 @@ def make_equivariance(n, d, kind):
     return Obligation(f"equivariance-{kind}-n{n}-d{d}", harness, replay=replay, encodes=[fit_mvstud],
                       bounds=f"n={n} symbolic points, d={d}, initialisation + one ECME iteration (max_iter=1), symbolic per-coordinate scale/shift" if kind == "affine"
                       else (f"n={n} concrete points, d={d}, scales (1/s, .., s) with symbolic s in [1, 1e6], initialisation + one ECME iteration" if kind == "scale-concrete"
+                            else f"n={n} concrete points, d={d}, ONE common scale s in [1e-6, 1e6] on every coordinate, two ECME iterations with scripted dof updates (3.0, 2.5)" if kind == "scale-common"
                             else f"n={n} symbolic points, d=2, coordinate swap"),
                       stubs=["nu update (optimize.bisect/special.psi/np.log score) -> nondeterministic nu > 0 or inf, identical for runs whose Mahalanobis distances are proved equal",
                              "np.cov -> unbiased covariance model", "np.linalg.solve -> closed form (d<=2)", "np.linalg.pinv -> eigenvalue cut-off model (d<=2)"],
@@ -480,7 +510,7 @@ def make_fallback():
 
 
 def obligations(tier):
-    obs = [make_fallback(), make_dof_decision(4, 1), make_dof_decision(4, 2), make_equivariance(4, 2, "scale-concrete"), make_init_equivariance(3, 1), make_init_equivariance(2, 2), make_equivariance(3, 1, "affine"), make_wellposed(3, 1), make_equivariance(2, 2, "permute"), make_equivariance(2, 2, "affine")]
+    obs = [make_fallback(), make_dof_decision(4, 1), make_dof_decision(4, 2), make_equivariance(4, 2, "scale-concrete"), make_equivariance(4, 2, "scale-common"), make_init_equivariance(3, 1), make_init_equivariance(2, 2), make_equivariance(3, 1, "affine"), make_wellposed(3, 1), make_equivariance(2, 2, "permute"), make_equivariance(2, 2, "affine")]
     if tier == "thorough":
         # (n=4 one-iteration obligations - affine d=1, permutation d=2, well-posedness d=1 - exhaust the 2400 s budget or end in nlsat
         #  `unknown`: not scheduled; the initialisation obligations below cover n=4 / n=3,d=2)
